@@ -6,6 +6,8 @@ From Coq Require Import String.
 From CCT Require Import Prelude Hex Num Time Formats PySrc.
 From CCT.Gen Require Source.
 From CCT.proofs Require Import SchemaFacts SourceFacts SourceSigFacts SourceEnvFacts SourceNumFacts SourceDmFacts JsonFacts SourceJsonFacts.
+From CCT Require Import JsonParse.
+From CCT.proofs Require SourceLoadFacts.
 
 Theorem C14src_translated :
   forallb (fun f => existsb (String.eqb f) (map fst Source.program)) ["is_signable"; "checkformat_signable"; "checkformat_natural_int"; "checkformat_list_of_hex_keys"; "checkformat_utc_isoformat";
@@ -97,6 +99,14 @@ Theorem C14src_checker_iff_schema_on_json : forall v, jdom v = true ->
   (run_prog Source.program "checkformat_delegating_metadata" [v] = Ok VNone <-> dm_ok v).
 Proof. intros v J NT. exact (src_checker_iff_schema v (jdom_checker_input_ok v J NT)). Qed.
 
+(* every file the library can load: load_file is json.load's byte layer (encoding guess, byte-order mark, UTF-8 with surrogatepass) and
+   the parser of C07; whatever it returns has str keys, pairwise distinct, in every dict at every depth (an invariant of the parser's
+   stack machine: SourceLoadFacts.parse_jkeys), so the checker as written decides the schema on it -- unless the version is text *)
+Theorem C14src_checker_on_loaded_files : forall b v, load_file b = Ok v ->
+  (forall c ve, subscript v (U"signed") = Ok c -> subscript c (U"version") = Ok ve -> not_text ve = true) ->
+  (run_prog Source.program "checkformat_delegating_metadata" [v] = Ok VNone <-> dm_ok v).
+Proof. exact SourceLoadFacts.loaded_checker_iff_schema. Qed.
+
 (* non-vacuity of the checker theorems: a concrete root document meets checker_input_ok and the interpreted source accepts it;
    the same document without its version is rejected by the interpreted source with ValueError *)
 Definition ex_key := VStr (repeat 97 64).
@@ -147,6 +157,7 @@ Print Assumptions C14src_checker_refines.
 Print Assumptions C14src_checker_iff_schema.
 Print Assumptions C14src_json_values_ok.
 Print Assumptions C14src_checker_iff_schema_on_json.
+Print Assumptions C14src_checker_on_loaded_files.
 Print Assumptions C14src_checker_witness.
 Print Assumptions C14src_json_dicts_are_ok.
 Print Assumptions C14src_witness.
